@@ -7,6 +7,19 @@ _A_NOTE = ('Trusted: CrossHair 0.0.110 proxy semantics and path pruning, z3 5.1.
            'before a VIOLATION is printed.')
 
 CLAIMS = {
+    'C07': dict(
+        engine='A-crosshair',
+        technique='bounded symbolic execution of the real code (CrossHair + z3); canonical-form and identity-set comparison',
+        text=('For every 4-node configuration of the family (positional-argument root incl. *args, Config or Partial, '
+              'shared list, tags on keyword / positional / nested / value-less arguments; child targets '
+              'solver-enumerated), every copy operation (copy.copy, copy.deepcopy, pickle protocols 2 and 5, copy_with, '
+              'deepcopy_with, cast to Partial / Config) and every pair of follow-up edits on the copy (set/delete '
+              'keyword, index and *args arguments, tag add/remove/clear/set, nested node / container / tag mutation '
+              'for deep copies): the copy has the same canonical form (callables, arguments, tags, sharing), deep '
+              'copies share no Buildable, container, argument dict, tag set or history list with the original, shallow '
+              'copies share exactly the argument values, and the original\'s canonical form and built graph are '
+              'unchanged by the edits. Unpicklable callables fail loudly.'),
+        note=_A_NOTE + ' Leaves are symbolic ints; in the pickle cubes they are realised within [-2, 2] first (pickle is C code).'),
     'C05': dict(
         engine='A-crosshair',
         technique='bounded symbolic execution of the real code (CrossHair + z3) with the failing node as a symbolic crash point',
